@@ -96,3 +96,20 @@ V('C07', 'neg-kind-filter-in-second-list', PO, PF,
     applicable = [p for p in pols if mode in p.get_access_kinds(schema)]
     for pol in applicable:
 ''', None)
+
+V('C07', 'own-policies-by-owned-flag', PO, 'edb.edgeql.compiler.policies.has_own_policies',
+  '''        if not any(
+            skip_from == base.get_subject(schema)
+            for base in pol.get_bases(schema).objects(schema)
+        ):''', '''        if skip_from is None or pol.get_owned(schema):''', 'C07.R8', 'has_own_policies:relative-to-skip_from')
+V('C07', 'rewrite-skipped-without-select-policy', PO, 'edb.edgeql.compiler.policies.try_type_rewrite',
+  '    pols = get_access_policies(stype, ctx=ctx)\n    if not pols and not children_have_policies:', '''    pols = tuple(
+        pol for pol in get_access_policies(stype, ctx=ctx)
+        if qltypes.AccessKind.Select in pol.get_access_kinds(schema)
+    )
+    if not pols and not children_have_policies:''', 'C07.R8', 'try_type_rewrite:no-rewrite-only-without-policies')
+V('C07', 'pending-guard-shared-with-parent', 'edb/pgsql/compiler/context.py', 'edb.pgsql.compiler.context.CompilerContextLevel.__init__',
+  '''                self.pending_type_rewrite_ctes = set(
+                    prevlevel.pending_type_rewrite_ctes
+                )
+''', '', 'C07.R8', 'pending_type_rewrite_ctes:scoped-by-newrel')
